@@ -133,7 +133,7 @@ def mac_member(rng, path, level=1):
     return g
 
 
-def random_archive(rng, nmax=6, with_compressed=True, allow_bad=True):
+def random_archive(rng, nmax=6, with_compressed=True, allow_bad=True, with_mac=True):
     """a directory-structured archive: dirs followed by their contents, files, links"""
     ms = []
     dirs = [b""]
@@ -147,9 +147,14 @@ def random_archive(rng, nmax=6, with_compressed=True, allow_bad=True):
         # siblings whose name merely starts with the name of an earlier directory ("a/" ... "ab/y"):
         # being inside a directory is a matter of path components, not of string prefixes
         if len(alldirs) > 0 and rng.random() < 0.2:
-            nm = rng.choice(alldirs) + rng.choice([b"b", b"0", b"_"]) + (b"/y" if rng.random() < 0.5 else b"")
-            if nm not in used:
+            stem = rng.choice(alldirs) + rng.choice([b"b", b"0", b"_"])
+            nm = stem + (b"/y" if rng.random() < 0.5 else b"")
+            if nm not in used and stem not in used:
                 used.add(nm)
+                used.add(stem)         # (the implied directory: no file may take its name later)
+                if nm != stem:
+                    # the library's own extraction does not create missing parents: give the directory its entry
+                    ms.append(G("dir", stem, level=2))
                 return nm
         for _ in range(50):
             nm = prefix + rng.choice(names) + (b"%d" % rng.randrange(100) if rng.random() < 0.5 else b"")
@@ -179,7 +184,7 @@ def random_archive(rng, nmax=6, with_compressed=True, allow_bad=True):
                 if p in used and b"/" not in p:
                     p = p + b"%d" % len(used)
                 used.add(p)
-            if rng.random() < 0.12 and lvl >= 1:
+            if with_mac and rng.random() < 0.12 and lvl >= 1:
                 ms.append(mac_member(rng, p, lvl))
                 continue
             if pool and rng.random() < 0.45:
